@@ -79,22 +79,25 @@ IsDirAt(f, p)  == LET r == Stat(f, p) IN r.st = "ok" /\ Kind(f, r.p) = "dir"
 EvalSymlinks(f, p) == Stat(f, p)
 
 (* ---- system calls: results [ok, f] (+ fields) ; failed calls leave f unchanged ---*)
-SysMkdir(f, p) ==
+SysMkdirM(f, p, m) ==
   LET r == Lstat(f, p) IN
-  IF r.st = "noent" /\ r.final THEN [ok |-> TRUE, f |-> Put(f, r.p, DirN), at |-> r.p]
+  IF r.st = "noent" /\ r.final THEN [ok |-> TRUE, f |-> Put(f, r.p, [DirN EXCEPT !.m = m]), at |-> r.p]
   ELSE [ok |-> FALSE, f |-> f, at |-> <<>>]
+SysMkdir(f, p) == SysMkdirM(f, p, "d")
 
-RECURSIVE MkdirAll(_, _)
-\* os.MkdirAll (fast path Stat; parent first; Mkdir; on failure accept an existing directory)
-MkdirAll(f, p) ==
+RECURSIVE MkdirAllM(_, _, _)
+\* os.MkdirAll(p, mode) (fast path Stat; parent first; Mkdir; on failure accept an existing directory); every
+\* directory it creates gets the mode class m, existing ones are left alone
+MkdirAllM(f, p, m) ==
   LET s == Stat(f, p) IN
   IF s.st = "ok" THEN [ok |-> Kind(f, s.p) = "dir", f |-> f]
-  ELSE LET par == IF p = <<>> THEN [ok |-> TRUE, f |-> f] ELSE MkdirAll(f, Dirname(p)) IN
+  ELSE LET par == IF p = <<>> THEN [ok |-> TRUE, f |-> f] ELSE MkdirAllM(f, Dirname(p), m) IN
        IF ~par.ok THEN [ok |-> FALSE, f |-> par.f]
-       ELSE LET m == SysMkdir(par.f, p) IN
-            IF m.ok THEN [ok |-> TRUE, f |-> m.f]
+       ELSE LET mk == SysMkdirM(par.f, p, m) IN
+            IF mk.ok THEN [ok |-> TRUE, f |-> mk.f]
             ELSE LET l == Lstat(par.f, p) IN
                  [ok |-> (l.st = "ok" /\ Kind(par.f, l.p) = "dir"), f |-> par.f]
+MkdirAll(f, p) == MkdirAllM(f, p, "d")
 
 \* os.OpenFile(p, O_CREATE|O_WRONLY|O_TRUNC) followed by writing content c.
 \* A dangling symbolic link in the final component is followed: the file is created at the link's target.
